@@ -480,3 +480,21 @@ func poolStar(w *world, n int) []utx {
 	}
 	return out
 }
+
+// poolWitStar: one parent paying n P2WPKH outputs and n children spending them
+// (every child carries witness data; varying fees so that the selection order is
+// fixed).  The generator's running weight is a sum of per-transaction weights: a
+// per-witness-transaction error accumulates here beyond its slack.
+func poolWitStar(w *world, n int) []utx {
+	var extra []*wire.TxOut
+	for i := 0; i < n; i++ {
+		extra = append(extra, &wire.TxOut{Value: 1_000_000, PkScript: p2wpkh})
+	}
+	root := mkTx(1, []inSpec{{Op: coin(w.F[3], 7), Value: 2.5e8}}, 60000, 1, false, extra, 0)
+	out := []utx{{"p", root}}
+	for i := 0; i < n; i++ {
+		c := mkTx(1, []inSpec{{Op: outPt(root, uint32(1+i)), Value: 1_000_000, Witness: true}}, int64(300+11*i), 1+i%2, false, nil, 0)
+		out = append(out, utx{fmt.Sprintf("w%03d", i), c})
+	}
+	return out
+}
